@@ -386,11 +386,11 @@ theorem exportForm_qnoise_ne_variable (c : Cls) (f : Form) :
 
 theorem exportForm_qnoise_variable (c : Cls) : exportForm c "qnoise_factor" .variable = .npScalar := rfl
 
-theorem plain_ne (f : Form) (h : f.plain = true) : f ≠ .variable ∧ f ≠ .tensor := by
-  cases f <;> simp [Form.plain] at h ⊢
+theorem plain_ne (f : Form) (h : f.plain = true) : f ≠ .variable ∧ f.tagged = false := by
+  cases f <;> simp [Form.plain, Form.tagged] at h ⊢
 
 theorem kerasOutcome_ok_iff (forms : List (String × Form)) :
-    kerasOutcome forms = .ok ↔ ∀ p ∈ forms, p.2 ≠ .variable ∧ p.2 ≠ .tensor := by
+    kerasOutcome forms = .ok ↔ ∀ p ∈ forms, p.2 ≠ .variable ∧ p.2.tagged = false := by
   unfold kerasOutcome
   constructor
   · intro h
@@ -404,21 +404,49 @@ theorem kerasOutcome_ok_iff (forms : List (String × Form)) :
         · intro hpv
           apply hv
           exact List.any_eq_true.2 ⟨p, hp, by simp [hpv]⟩
-        · intro hpt
-          have : p.1 ∈ (forms.filter fun p => p.2 == Form.tensor).map Prod.fst :=
-            List.mem_map_of_mem (List.mem_filter.2 ⟨hp, by simp [hpt]⟩)
-          rw [hnil] at this
-          cases this
+        · cases hpt : p.2.tagged with
+          | false => rfl
+          | true =>
+            have : p.1 ∈ (forms.filter fun p => p.2.tagged).map Prod.fst :=
+              List.mem_map_of_mem (List.mem_filter.2 ⟨hp, hpt⟩)
+            rw [hnil] at this
+            cases this
       · cases h
   · intro h
     have hv : ¬ (forms.any fun p => p.2 == Form.variable) = true := by
       intro hany
       obtain ⟨p, hp, hpv⟩ := List.any_eq_true.1 hany
       exact (h p hp).1 (by simpa using hpv)
-    have hf : (forms.filter fun p => p.2 == Form.tensor) = [] := by
+    have hf : (forms.filter fun p => p.2.tagged) = [] := by
       rw [List.filter_eq_nil_iff]
       intro p hp hpt
-      exact (h p hp).2 (by simpa using hpt)
+      rw [(h p hp).2] at hpt
+      cases hpt
     simp [hv, hf]
+
+/-! ### value forms through the dictionary routes -/
+
+/-- the forms a dictionary route hands back unchanged: everything except a `tf.Variable` under
+    `qnoise_factor` (exported as its value) and `post_training_scale` (list on the way out,
+    ndarray on the way in: restored iff it was None or an ndarray) -/
+def FormKept (k : String) (f : Form) (isNone : Bool) : Prop :=
+  (k = "qnoise_factor" → f ≠ .variable) ∧
+  (k = "post_training_scale" → (isNone = true ∧ f = .literal) ∨ (isNone = false ∧ f = .array))
+
+theorem rebuiltForm_kept (c : Cls) (k : String) (f : Form) (isNone : Bool)
+    (h : FormKept k f isNone) : rebuiltForm c k f isNone = f := by
+  unfold rebuiltForm importForm exportForm
+  by_cases hp : k = "post_training_scale"
+  · subst hp
+    rcases h.2 rfl with ⟨hn, hf⟩ | ⟨hn, hf⟩
+    · subst hn; subst hf; decide
+    · subst hn; subst hf; decide
+  · by_cases hq : k = "qnoise_factor"
+    · subst hq
+      have := h.1 rfl
+      cases f <;> simp_all
+    · have h1 : (k == "qnoise_factor") = false := by simpa using hq
+      have h2 : (k == "post_training_scale") = false := by simpa using hp
+      simp [h1, h2]
 
 end QKV.Py
